@@ -347,6 +347,25 @@ func TestVerifC06(t *testing.T) {
 		c.pf("END")
 	}
 
+	// (3b) producer beyond the index space: indexes >= 2^48 (and values with
+	// high bits set) must be refused, never aliased onto an in-range secret.
+	for i := 0; i < 4*mult; i++ {
+		root := c.randHash()
+		p := NewRevocationProducer(root)
+		c.startCase("prodrange", &root, 0)
+		c.store = NewRevocationStore()
+		c.pf("new")
+		for _, v := range []uint64{
+			start - 1, start, start + 1, start + 2, start + 1 + uint64(c.rng.Intn(1000)),
+			(start + 1) | uint64(c.rng.Uint32()), (uint64(1) << 49) - 1, uint64(1) << 63,
+			(uint64(1) << 63) | uint64(c.rng.Intn(8)), ^uint64(0), c.rng.Uint64() | (uint64(1) << (48 + uint(c.rng.Intn(16)))),
+		} {
+			c.prod(p, v)
+			c.prod(p, v&start) // the in-range index it would alias to
+		}
+		c.pf("END")
+	}
+
 	// (4) decoder on arbitrary / mutated bytes.
 	for i := 0; i < 80*mult; i++ {
 		root := c.randHash()
